@@ -39,6 +39,10 @@ A *case* is a structural description, never source text::
                                   bound = "quick" | "thorough" | list of plans (see BOUNDS).
                                   shard = (k, n): the k-th of n disjoint parts (split on the combination of
                                   block kinds, so the union over k is exactly cases(bound)).
+    plans(bound) / BOUNDS         the plans of a bound: dicts {depth, names, kinds: "full"|"reduced", forms, selfcall:
+                                  "none"|"first"|"all"|"names" (= all without None)}; a plan is the full product of per-template kind assignments
+                                  x selfcall x (extends form, flag assignment) per child; levels that a flag
+                                  assignment makes unreachable are kept at their first (canonical) choice only.
     count(bound)                  number of cases (enumerates).
     to_templates(case)            -> (sources: dict name->str, main_name, data).  Values of `data` that are
                                   TemplateRef instances must be turned into Template objects with
@@ -144,8 +148,10 @@ def cuts_chain(ext, fl):
 BOUNDS = {
     "quick": [
         {"depth": 1, "names": ("a", "b"), "kinds": "full", "forms": EXT_FORMS, "selfcall": "all"},
-        {"depth": 2, "names": ("a", "b"), "kinds": "full", "forms": EXT_FORMS, "selfcall": "first"},
-        {"depth": 3, "names": ("a",), "kinds": "full", "forms": EXT_FORMS, "selfcall": "first"},
+        {"depth": 2, "names": ("a", "b"), "kinds": "full", "forms": EXT_FORMS, "selfcall": "none"},
+        {"depth": 2, "names": ("a", "b"), "kinds": "full", "forms": ("lit",), "selfcall": "names"},
+        {"depth": 3, "names": ("a",), "kinds": "full", "forms": EXT_FORMS, "selfcall": "none"},
+        {"depth": 3, "names": ("a",), "kinds": "full", "forms": ("lit",), "selfcall": "names"},
     ],
     "thorough": [
         {"depth": 1, "names": ("a", "b", "c"), "kinds": "full", "forms": EXT_FORMS, "selfcall": "all"},
@@ -180,7 +186,7 @@ def _plan_cases(plan, shard=None):
     canon_root = root_kinds[0]
     canon_child = child_kinds[0]
     sc = plan["selfcall"]
-    selfcalls = {"none": (None,), "first": (None, names[0]), "all": (None,) + names}[sc]
+    selfcalls = {"none": (None,), "first": (None, names[0]), "all": (None,) + names, "names": names}[sc]
     ext_choices = [(e, fl) for e in plan["forms"] for fl in flag_variants(e)]
     # block kinds vary slowest (root first), extends forms fastest; a shard owns every
     # n-th combination of block kinds and sees every extends form on it
